@@ -350,7 +350,11 @@ func (env *SpecEnv) evalBinary(x *ast.BinaryExpr) Val {
 		var eq *Term
 		switch {
 		case l.T == nil && r.T == nil:
-			eq = True
+			if len(l.C) == len(r.C) && len(l.C) > 0 && l.C[0].Sort == r.C[0].Sort {
+				eq = eqVal(l, r)
+			} else {
+				eq = True
+			}
 		case l.T == nil || r.T == nil:
 			// comparison with nil
 			o := l
@@ -370,6 +374,9 @@ func (env *SpecEnv) evalBinary(x *ast.BinaryExpr) Val {
 			eq = Not(eq)
 		}
 		return boolVal(eq)
+	}
+	if x.Op == token.ADD && l.T != nil && r.T != nil && kindOf(l.T) == KString && kindOf(r.T) == KString {
+		return env.vc.stringConcat(l, r, env.st, l.T)
 	}
 	a, b := l.C[0], r.C[0]
 	switch x.Op {
